@@ -40,9 +40,10 @@ typedef struct gcase {
     uint8_t ex_s[7];
     uint8_t src_first; /* allocate src at the lower address (exercises the dest > src branches) */
     /* overlap placement (C07): src lies at dest + ov_off elements inside one arena object */
-    int ov_on;
+    int ov_on;           /* 1: C07's overlap placement; 2: query rows (C10), the second operand IS a tail of the first: src = dest + ov_off */
     long ov_off;
 } gcase_t;
+#define GC_QALIAS(c) ((c)->ov_on == 2)
 
 /* result of running a gcase */
 typedef struct gexec {
